@@ -32,6 +32,23 @@ for tc in ET.parse(junit).getroot().iter('testcase'):
         passed.add(f"{tc.get('classname')}::{tc.get('name')}")
 os.unlink(junit)
 missing = sorted(stable - passed)
+first_missing = list(missing)
+# Timing-sensitive multi-process tests can fail on a loaded machine even on the pinned code: re-run the stable tests that
+# did not pass, alone and serially, up to two more times; a test counts as passing if it passes in isolation.
+for attempt in range(2):
+    if not missing or len(missing) > 12:
+        break
+    ids = [m.replace('.', '/', m.split('::')[0].count('.')).replace('::', '.py::', 1) for m in missing]
+    fd, junit = tempfile.mkstemp(suffix='.xml'); os.close(fd)
+    subprocess.run(['/venv/bin/python', '-m', 'pytest', '-q', '-p', 'no:cacheprovider', '--timeout=900', f'--junitxml={junit}'] + ids,
+                   cwd=src, env=env, capture_output=True, text=True)
+    for tc in ET.parse(junit).getroot().iter('testcase'):
+        if not any(ch.tag in ('failure', 'error', 'skipped') for ch in tc):
+            passed.add(f"{tc.get('classname')}::{tc.get('name')}")
+    os.unlink(junit)
+    missing = sorted(stable - passed)
+if first_missing != missing:
+    print('re-run in isolation (load-sensitive tests):', ', '.join(t for t in first_missing if t not in missing), '-> passed')
 print(r.stdout.strip().splitlines()[-1] if r.stdout.strip() else r.stderr[-500:])
 print(f'stable baseline tests: {len(stable)}; passed now: {len(stable & passed)}; not passing: {len(missing)}')
 for m in missing:
